@@ -40,6 +40,14 @@ func checkC02(c *Ctx) {
 		an.Instrs(f, func(in ssa.Instruction) {
 			if st, ok := in.(*ssa.Store); ok {
 				if fa, ok := st.Addr.(*ssa.FieldAddr); ok && an.FieldAddrName(fa) == "Children" && an.TypeIs(fa.X.Type(), an.PkgBer, "Packet") {
+					// a packet this function has just built with a constructor of the ber library is on its way out (being
+					// encoded), not a decoded request: no length fact was established for it
+					if bc, isCall := an.Strip(fa.X).(*ssa.Call); isCall {
+						if g := bc.Common().StaticCallee(); g != nil && an.FuncPkgPath(g) == an.PkgBer && bc.Parent() == f {
+							R.OK("C02-children-monotone", fname(f)+": store to Children of a packet under construction", c.pos(in), "the packet is the result of ber."+g.Name()+" in this function")
+							return
+						}
+					}
 					R.Fail("C02-children-monotone", fname(f)+": store to Packet.Children", c.pos(in), "gldap assigns a packet's Children directly; length facts established by earlier validation no longer hold")
 				}
 			}
@@ -60,7 +68,7 @@ func init() {
 	Registry["C16"] = checkC16
 	Descriptions["C16"] = "C16-panicfree: engine E2 with entries ConvertString, SIDBytes, SIDBytesToString, NewEntry, NewEntryAttribute, the New*Response constructors, the NewControl* constructors, the Mux registration methods and every exported With* option; all non-receiver parameters are caller-controlled (any length, nil, any subset/order of options incl. nil options). " +
 		"C16-sid-siblings (the binary.Write layout of SIDBytes is a prefix of the binary.Read layout of SIDBytesToString and every binary.Read error is returned), C16-order (Entry.Attributes order depends only on a sorted key slice), C16-paired (every writer of EntryAttribute.Values writes ByteValues with []byte of the same element). " +
-		"Does not decide ConvertString / SID round-trip value equalities."
+		"C16-errpath (in ConvertString / SIDBytes / SIDBytesToString an error of a module helper is tested and no path from its failure edge returns nil or overwrites the pending error). Does not decide ConvertString / SID round-trip value equalities."
 }
 
 func checkC16(c *Ctx) {
@@ -100,6 +108,18 @@ func checkC16(c *Ctx) {
 		R.Fatal("C16 slice too small: %d entries, %d functions", len(entries), len(fns))
 	}
 	c.checkSID()
+	// C16-errpath: "invalid input yields an error": in the exported helpers an error reported by a helper of the module
+	// (readLength, ...) reaches the caller - it is tested, and no path from its failure edge returns a nil error or lets a
+	// later call overwrite it
+	{
+		var helpers []*ssa.Function
+		for _, n := range []string{"ConvertString", "SIDBytes", "SIDBytesToString"} {
+			if f := c.fn(G, n); f != nil {
+				helpers = append(helpers, f)
+			}
+		}
+		c.checkErrorsPropagate("C16-errpath", helpers)
+	}
 	c.checkEntryOrder()
 	c.checkPairedValues()
 	// C16-validates: "invalid input yields an error or the documented default": the one constructor with a validation
